@@ -198,7 +198,10 @@ GAr(p, d) ==
       bin(op) == LET a0 == GAr(p + 1, d - 1)
                      a == Par(a0, IsBin(a0.t) /\ APrec(a0.t.Op) < APrec(op))
                      b == GAr(a0.pos, 0) IN
-                 Res(b.pos, Need2(nd, Need2(a0.need, b.need)), BinA(op, a.t, b.t), a.r \o <<op>> \o b.r) IN
+                 \* + and - are written with blanks: `x-$y` with y=-2 is the TEXT x--2 for bash (a post-decrement and a
+                 \* syntax error), which is about how the text is lexed, not about what Simplify does
+                 Res(b.pos, Need2(nd, Need2(a0.need, b.need)), BinA(op, a.t, b.t),
+                     a.r \o (IF op \in {"+", "-"} THEN <<" ", op, " ">> ELSE <<op>>) \o b.r) IN
   CASE c = 0 -> leaf(Wd(<<PES("x")>>), <<"$x">>)
     [] c = 1 -> leaf(LW(<<"x">>), <<"x">>)
     [] c = 2 -> leaf(LW(<<"2">>), <<"2">>)
